@@ -103,7 +103,7 @@ CHECKS = {
         text="TLC model-checks Process.tla (process-wide memo tables with separate compute / store steps, per-call accumulators, failing parses) for every interleaving of 2/3 threads x <= 2 parses over a 3-text corpus (Purity, MemoSound); "
              "the shared-accumulator, partially-keyed-table and leaking-failure variants are shown to violate Purity. Every history of <= 3/4 parses over a 6-text corpus (TLC-enumerated) runs in its own fresh interpreter; TLC-generated complete "
              "schedules (24 857) are replayed on the real parser by a deterministic cooperative scheduler (sys.settrace switch points, fresh interpreters and cache-cleared batches), plus seeded line-granularity schedules and a free-running stress; "
-             "TLC judges every parse against the digest of the same text parsed alone in a fresh interpreter (Props!C17V).",
+             "TLC judges every parse against the digest of the same text parsed alone in a fresh interpreter with a different string-hash seed (Props!C17V). A-level: the per-parse cache misses recorded from functools cache_info() are validated against Process.tla driven through the same history with memo programs extracted from the working tree (TraceProcess.tla; drift only).",
         design="5 (C17)", technique="TLA+ model checking (TLC) of interleavings + replay of TLC schedules by a deterministic thread scheduler + TLC trace validation"),
     "C07": dict(
         text="The shipped N / S / E recognisers are extracted from the working tree as epsilon-free NFAs (from Python's own regex parse tree) and TLC explores their product with the spec's canonical and liberal grammars (Lang.tla): "
